@@ -1188,6 +1188,21 @@ func phiAlias(phi *ssa.Phi) ssa.Value {
 	defer delete(phiAliasBusy, phi)
 	ff := activeProg.Facts(phi.Parent())
 	B := phi.Block()
+	// all incoming edges but one are dead
+	if len(phi.Edges) > 1 {
+		live := -1
+		nlive := 0
+		for i, pred := range B.Preds {
+			if !ff.EdgeInfeasible(pred, B) {
+				live = i
+				nlive++
+			}
+		}
+		if nlive == 1 {
+			phiAliasCache[phi] = phi.Edges[live]
+			return phi.Edges[live]
+		}
+	}
 	refs := phi.Referrers()
 	res := -1
 	ok := refs != nil && len(*refs) > 0
@@ -1289,4 +1304,25 @@ func (ff *FuncFacts) edgeNilState(phi *ssa.Phi, i int) int {
 		}
 	}
 	return 0
+}
+
+// EdgeInfeasible: the CFG edge pred→blk is never taken: pred is dead, or the
+// edge's own condition contradicts what is known in pred.
+func (ff *FuncFacts) EdgeInfeasible(pred, blk *ssa.BasicBlock) bool {
+	if ff.Infeasible(pred) {
+		return true
+	}
+	ef, ok := edgeFact(pred, blk)
+	if !ok {
+		return false
+	}
+	if k, isC := ef.Cond.(*ssa.Const); isC && k.Value != nil && k.Value.Kind() == constant.Bool {
+		return constant.BoolVal(k.Value) != ef.Pol
+	}
+	for _, g := range ff.NC(pred) {
+		if g.Pol != ef.Pol && ff.p.sameCond(g.Cond, ef.Cond, 0) {
+			return true
+		}
+	}
+	return false
 }
